@@ -592,8 +592,9 @@ def implicit(m: Model, d: Data):
       outputs=[d.qLU],
     )
 
-    # 3. Compute RNE derivatives, scale by timestep, and subtract in-place from qLU
-    derivative.deriv_rne_vel(m, d, d.qLU, flg_subtract=True)
+    # 3. Compute RNE derivatives scaled by timestep: deriv_rne_vel yields dt * d(bias)/d(qvel),
+    # which is -dt * qDeriv_rne, so it is added in-place to qLU = M - dt * qDeriv
+    derivative.deriv_rne_vel(m, d, d.qLU)
 
     # 4. Factorize and solve: qacc = qLU \ Ma
     qacc = wp.empty((d.nworld, m.nv), dtype=float)
